@@ -21,13 +21,14 @@ Layers
   * `outcome`  — "equal" / "unequal" / "exc:<Type>" / "unmodelled".
 
 What is *not* modelled (trusted to CPython): tokenising/parsing of the text
-into the AST; `repr()`/literal round trip of `str`, `bytes`, finite `float`
+into the AST; `repr()`/literal round trip of
 and of opaque values whose `repr` is a constructor call (`Decimal('1.5')`,
 `XmlDate(2000, 1, 2)`): their text is an input (`repr` field) and evaluating
 it is taken to give the value back.
 -/
 import XsdataModel.Py.Basic
 import XsdataModel.Tables
+import XsdataModel.Conv.FloatRepr
 
 open Lean in
 /-- `cs!"abc"` = `['a','b','c']` (strings in the model are `List Char`) -/
@@ -47,12 +48,17 @@ inductive NumV
   | pinf
   | ninf
   | nan
+  /-- `Decimal('sNaN')`: every comparison with it raises `InvalidOperation` -/
+  | snan
 deriving DecidableEq, Repr
 
-/-- Python numeric `==` (exact; NaN equals nothing) -/
+/-- Python numeric `==` (exact; NaN equals nothing; a comparison with a
+signaling NaN raises - see `eqRaises` - and is `false` here) -/
 def NumV.eq : NumV → NumV → Bool
   | .nan, _ => false
   | _, .nan => false
+  | .snan, _ => false
+  | _, .snan => false
   | a, b => decide (a = b)
 
 def NumV.isFin : NumV → Bool
@@ -78,6 +84,7 @@ def tupleT : ClsRef := bref cs!"tuple"
 def dictT : ClsRef := bref cs!"dict"
 def setT : ClsRef := bref cs!"set"
 def frozensetT : ClsRef := bref cs!"frozenset"
+def decimalT : ClsRef := ⟨Tables.decimalModule, [Tables.decimalName]⟩
 def qnameT : ClsRef := ⟨Tables.qnameModule, [Tables.qnameName]⟩
 
 inductive Val
@@ -85,7 +92,7 @@ inductive Val
   | bool (b : Bool)
   | int (i : Int)
   /-- `repr` = `str(value)` -/
-  | float (n : NumV) (repr : Str)
+  | float (x : Xs.Conv.F64) (repr : Str)
   /-- `repr` = `repr(value)`; the domain predicate asks that it be a literal
       denoting `s` (it is for CPython's `repr`: `str_repr_roundtrips`) -/
   | str (s : Str) (repr : Str)
@@ -94,6 +101,9 @@ inductive Val
   | bytes (cls : ClsRef) (bs : List Nat) (repr : Str)
   /-- `xml.etree.ElementTree.QName`; `text` is `value.text` -/
   | qname (text : Str)
+  /-- `decimal.Decimal`, as `as_tuple()` shows it (C05's `Dec`); `repr` =
+      `repr(value)` = `Decimal('<str(value)>')` -/
+  | decimal (d : Xs.Conv.Dec) (repr : Str)
   /-- a value of class `cls` whose `repr` is the constructor call
       `callee(args)` (`Decimal('1.5')`, `XmlDate(2000, 1, 2)`); `n` is its
       numeric value when it takes part in numeric `==` (Decimal) -/
@@ -141,12 +151,88 @@ def World.fieldsOf (W : World) (r : ClsRef) : List FieldSpec :=
 
 /-! ## Python `==` -/
 
+/-- how often 2 divides `m` (at most `fuel` times) -/
+def twoAdic : Nat → Nat → Nat
+  | 0, _ => 0
+  | fuel + 1, m => if m ≠ 0 ∧ m % 2 = 0 then 1 + twoAdic fuel (m / 2) else 0
+
+/-- the exact value of a binary64 number as a fraction in lowest terms -/
+def numOfF64 : Xs.Conv.F64 → NumV
+  | .nan => .nan
+  | .inf neg => if neg then .ninf else .pinf
+  | .fin neg m q =>
+    if m = 0 then .fin 0 1
+    else
+      let sgn : Int := if neg then -1 else 1
+      if q ≥ 0 then .fin (sgn * (m * 2 ^ q.toNat : Nat)) 1
+      else
+        let k := min (twoAdic 64 m) (-q).toNat
+        .fin (sgn * (m / 2 ^ k : Nat)) (2 ^ ((-q).toNat - k))
+
+/-- the exact value of a Decimal as a fraction in lowest terms (a signaling NaN
+is kept apart: comparing with it raises) -/
+def numOfDec : Xs.Conv.Dec → NumV
+  | .inf neg => if neg then .ninf else .pinf
+  | .nan _ sg _ => if sg then .snan else .nan
+  | .fin neg c x =>
+    if c = 0 then .fin 0 1
+    else
+      let sgn : Int := if neg then -1 else 1
+      if x ≥ 0 then .fin (sgn * (c * 10 ^ x.toNat : Nat)) 1
+      else
+        let p := 10 ^ (-x).toNat
+        let g := Nat.gcd c p
+        .fin (sgn * (c / g : Nat)) (p / g)
+
+/-- `"%+d" % i` -/
+def signedDec (i : Int) : Str := (if i < 0 then '-' else '+') :: natStr i.natAbs
+
+/-- `Decimal.__str__`: the scientific-notation rules of the decimal module
+(plain notation while the exponent is ≤ 0 and the value not below 1e-6,
+otherwise one digit, the rest after the point, `E±n`) -/
+def decStr : Xs.Conv.Dec → Str
+  | .inf neg => (if neg then ['-'] else []) ++ cs!"Infinity"
+  | .nan neg sg diag =>
+    (if neg then ['-'] else []) ++ (if sg then ['s'] else []) ++ ['N', 'a', 'N'] ++ (if diag = 0 then [] else natStr diag)
+  | .fin neg c x =>
+    let ds := natStr c
+    let n : Int := ds.length
+    let left := x + n
+    let body :=
+      if x ≤ 0 ∧ left > -6 then
+        if left ≤ 0 then '0' :: '.' :: (List.replicate (-left).toNat '0' ++ ds)
+        else if left ≥ n then ds
+        else ds.take left.toNat ++ '.' :: ds.drop left.toNat
+      else
+        (if ds.length ≤ 1 then ds else ds.take 1 ++ '.' :: ds.drop 1) ++ 'E' :: signedDec (left - 1)
+    (if neg then ['-'] else []) ++ body
+
+/-- `repr(d)` -/
+def decRepr (d : Xs.Conv.Dec) : Str := Tables.decimalName ++ cs!"('" ++ decStr d ++ cs!"')"
+
+def f64Finite : Xs.Conv.F64 → Bool
+  | .fin _ _ _ => true
+  | _ => false
+
+/-- the value is one of the format: zero, a normal or a subnormal number, ±inf, NaN -/
+def f64Canonical : Xs.Conv.F64 → Bool
+  | .fin _ m q =>
+    (m == 0 && q == -1074) || (decide (2 ^ 52 ≤ m) && decide (m < 2 ^ 53) && decide (-1074 ≤ q) && decide (q ≤ 971))
+      || (decide (0 < m) && decide (m < 2 ^ 52) && q == -1074)
+  | _ => true
+
+/-- `float(text)`: the double a float token / the argument of `float("…")`
+denotes - C05's exact model of CPython's parsing and rounding -/
+def readFloat (t : Str) : Option Xs.Conv.F64 :=
+  (Xs.Conv.pyFloatLit Py.Env.ascii t).map Xs.Conv.FloatLit.toF64
+
 /-- numeric view of a value (bool ⊂ int; float; Decimal) -/
 def numOf : Val → Option NumV
   | .bool b => some (.fin (if b then 1 else 0) 1)
   | .int i => some (.fin i 1)
-  | .float n _ => some n
+  | .float x _ => some (numOfF64 x)
   | .opaque _ _ _ (some n) => some n
+  | .decimal d _ => some (numOfDec d)
   | _ => Option.none
 
 /-- `a == b` when `a` is not a list/tuple/dict/dataclass -/
@@ -276,9 +362,11 @@ inductive PyExpr
   | arr (kind : ArrKind) (xs : List PyExpr)
   | dict (kvs : List (PyExpr × PyExpr))
   /-- `float("inf")` -/
-  | floatCall (n : NumV) (arg : Str)
+  | floatCall (x : Xs.Conv.F64) (arg : Str)
   /-- `QName(<json.dumps(text, ensure_ascii=False)>)` -/
   | qnameCall (text : Str)
+  /-- `Decimal('…')`: the whole `repr` text -/
+  | decimalCall (d : Xs.Conv.Dec) (text : Str)
   | opaqueCall (cls : ClsRef) (callee : List Str) (args : Str) (n : Option NumV)
   /-- `Qual.Name.MEMBER` (`__qualname__` of the class, `.name` of the member) -/
   | enumRef (cls : ClsRef) (member : Str)
@@ -352,6 +440,7 @@ def PyExpr.text (level : Nat) : PyExpr → Str
   | .floatCall _ a => Tables.floatLitPre ++ a ++ Tables.floatLitPost
   | .qnameCall t => Tables.qnameLitPre ++ jsonBody t ++ Tables.qnameLitPost
   | .opaqueCall _ callee args _ => dotted callee ++ args
+  | .decimalCall _ t => t
   | .enumRef c m => dotted c.path ++ Tables.enumStrSep ++ m
   | .call c kws => dotted c.path ++ cs!"(\n" ++ textKw (level + 1) true kws ++ cs!"\n" ++ spaces level ++ cs!")"
 def textItems (level : Nat) : List PyExpr → Str
@@ -375,6 +464,7 @@ def PyExpr.types : PyExpr → List ClsRef
   | .floatCall _ _ => [floatT]
   | .qnameCall _ => [qnameT]
   | .opaqueCall c _ _ _ => [c]
+  | .decimalCall _ _ => [decimalT]
   | .enumRef c _ => [c]
   | .call c kws => c :: typesKw kws
 def typesL : List PyExpr → List ClsRef
@@ -404,6 +494,7 @@ def PyExpr.refs : PyExpr → List (List Str × ClsRef)
   | .floatCall _ _ => [([floatCallee], floatT)]
   | .qnameCall _ => [([qnameCallee], qnameT)]
   | .opaqueCall c callee _ _ => [(callee, c)]
+  | .decimalCall _ _ => [([Tables.decimalName], decimalT)]
   | .enumRef c _ => [(c.path, c)]
   | .call c kws => (c.path, c) :: refsKw kws
 def refsL : List PyExpr → List (List Str × ClsRef)
@@ -438,11 +529,12 @@ def render (W : World) : Val → PyExpr
   | .none => .lit .none cs!"None" noneT
   | .bool b => .lit (.bool b) (if b then cs!"True" else cs!"False") boolT
   | .int i => .lit (.int i) (intStr i) intT
-  | .float n r => if n.isFin then .lit (.float n r) r floatT else .floatCall n r
+  | .float x r => if f64Finite x then .lit (.float x r) r floatT else .floatCall x r
   | .str s r => .lit (.str s r) r strT
   | .bytes c bs r => .lit (.bytes bytesT bs r) r c
   | .qname t => .qnameCall t
   | .opaque c callee args n => .opaqueCall c callee args n
+  | .decimal d r => .decimalCall d r
   | .enum c m => .enumRef c m
   | .list xs => .arr .list (renderL W xs)
   | .tuple xs => .arr .tuple (renderL W xs)
@@ -495,6 +587,8 @@ inductive Err
   | nameError
   | attributeError
   | typeError
+  /-- `decimal.InvalidOperation`, raised inside `render` by `default == value` -/
+  | invalidOperation
   /-- the rendered source does not compile -/
   | syntaxError
   /-- `xsdata.exceptions.SerializerError`, raised by `render` itself -/
@@ -507,6 +601,7 @@ def Err.name : Err → Str
   | .nameError => cs!"NameError"
   | .attributeError => cs!"AttributeError"
   | .typeError => cs!"TypeError"
+  | .invalidOperation => cs!"InvalidOperation"
   | .syntaxError => cs!"SyntaxError"
   | .serializerError => cs!"SerializerError"
   | .unmodelled => cs!"unmodelled"
@@ -749,6 +844,16 @@ def decodeBytesLit (t : Str) : Option (List Nat) :=
 def tblPrintable (c : Char) : Bool :=
   !(Tables.unprintableRanges.any fun ab => ab.1 ≤ c.toNat && c.toNat ≤ ab.2)
 
+/-- `Decimal('…')` → the value: the callee name, one string literal, C05's
+`decimalParse` (= `Decimal(str)`) on what the literal denotes -/
+def readDecimal (t : Str) : Option Xs.Conv.Dec :=
+  let pre := Tables.decimalName ++ ['(']
+  if pre.isPrefixOf t && t.getLast? == some ')' then
+    match decodeStrLit ((t.drop pre.length).dropLast) with
+    | some s => Xs.Conv.decimalParse Py.Env.ascii s
+    | Option.none => Option.none
+  else Option.none
+
 def kwGet (n : Str) : List (Str × Val) → Option Val
   | [] => Option.none
   | (k, v) :: r => if k == n then some v else kwGet n r
@@ -780,11 +885,16 @@ mutual
 def eval (W : World) (env : Env) : PyExpr → Except Err Val
   | .lit v t _ =>
     -- a `str` / `bytes` token is read by the parser; other tokens are taken to
-    -- denote their payload (trusted: int, float, None, True/False)
+    -- denote their payload (trusted: int, None, True/False); a float token is
+    -- read with C05's model of `float()`
     match v with
     | .str _ _ =>
       match decodeStrLit t with
       | some s => .ok (.str s t)
+      | Option.none => .error .unmodelled
+    | .float _ _ =>
+      match readFloat t with
+      | some y => .ok (.float y t)
       | Option.none => .error .unmodelled
     | .bytes c _ _ =>
       match decodeBytesLit t with
@@ -824,10 +934,15 @@ def eval (W : World) (env : Env) : PyExpr → Except Err Val
     match evalKV W env kvs with
     | .error e => .error e
     | .ok ps => if ps.all (fun p => hashable p.1) then .ok (.dict ps) else .error .typeError
-  | .floatCall n a =>
+  | .floatCall _ a =>
     match resolve W env [floatCallee] with
     | .error e => .error e
-    | .ok r => if r = floatT then .ok (.float n a) else .error .unmodelled
+    | .ok r =>
+      if r = floatT then
+        match readFloat a with
+        | some y => .ok (.float y a)
+        | Option.none => .error .unmodelled
+      else .error .unmodelled
   | .qnameCall t =>
     match resolve W env [qnameCallee] with
     | .error e => .error e
@@ -836,6 +951,16 @@ def eval (W : World) (env : Env) : PyExpr → Except Err Val
         -- the parser decodes the literal that `json.dumps` wrote
         match decodeDq .normal (jsonBody t) with
         | some t' => .ok (.qname t')
+        | Option.none => .error .unmodelled
+      else .error .unmodelled
+  | .decimalCall _ t =>
+    match resolve W env [Tables.decimalName] with
+    | .error e => .error e
+    | .ok r =>
+      if r = decimalT then
+        -- the argument is a string literal; `Decimal(str)` is C05's model of the constructor
+        match readDecimal t with
+        | some d => .ok (.decimal d t)
         | Option.none => .error .unmodelled
       else .error .unmodelled
   | .opaqueCall c callee args n =>
@@ -903,6 +1028,9 @@ mutual
 /-- does compiling the text depend on string-literal decoding this model does
 not cover (then the compile-time `SyntaxError` would pre-empt everything) -/
 def PyExpr.syntaxRisk : PyExpr → Bool
+  | .decimalCall _ t => (readDecimal t).isNone
+  | .lit (.float _ _) t _ => (readFloat t).isNone
+  | .floatCall _ a => (readFloat a).isNone
   | .enumRef _ m => !enumNameOK m
   | .lit (.str _ _) t _ => (decodeStrLit t).isNone
   | .lit (.bytes _ _ _) t _ => (decodeBytesLit t).isNone
@@ -931,6 +1059,7 @@ def PyExpr.depth : PyExpr → Nat
   | .floatCall _ _ => 1
   | .qnameCall _ => 1
   | .opaqueCall _ _ _ _ => 1
+  | .decimalCall _ _ => 1
   | .arr .frozenset [] => 1
   | .arr .frozenset (x :: xs) => 2 + depthL (x :: xs)   -- `frozenset({ … })`
   | .arr _ xs => 1 + depthL xs
@@ -955,7 +1084,130 @@ float value is refused too) -/
 def clashFree (ts : List ClsRef) : Bool :=
   ts.all fun t => ts.all fun u => t.path.headD [] != u.path.headD [] || t.module == u.module
 
-/-- does `render(obj)` return (rather than raise `SerializerError`)? -/
+/-! ### comparisons that raise: `Decimal('sNaN')`
+
+`repr_model` evaluates `default == value` for every `init` field it visits.
+Comparing a number with a signaling NaN raises `decimal.InvalidOperation`, and
+nothing catches it: `render` itself fails. -/
+
+mutual
+def hasSNaN : Val → Bool
+  | .opaque _ _ _ (some .snan) => true
+  | .decimal (.nan _ true _) _ => true
+  | .list xs => hasSNaNL xs
+  | .tuple xs => hasSNaNL xs
+  | .set _ xs => hasSNaNL xs
+  | .dict kvs => hasSNaNKV kvs
+  | .model _ xs => hasSNaNL xs
+  | _ => false
+def hasSNaNL : List Val → Bool
+  | [] => false
+  | x :: xs => hasSNaN x || hasSNaNL xs
+def hasSNaNKV : List (Val × Val) → Bool
+  | [] => false
+  | (k, v) :: r => hasSNaN k || hasSNaN v || hasSNaNKV r
+end
+
+/-- two numbers, one of them a signaling NaN -/
+def leafRaises (a b : Val) : Bool :=
+  match numOf a, numOf b with
+  | some x, some y => x == .snan || y == .snan
+  | _, _ => false
+
+mutual
+/-- does evaluating `a == b` raise `InvalidOperation`?  Lists and tuples of
+equal length are compared pairwise up to the first difference; `none`: a
+signaling NaN inside a dict / set comparison, not modelled -/
+def eqRaises (a b : Val) : Option Bool :=
+  match a with
+  | .list xs => match b with
+    | .list ys => if xs.length != ys.length then some false else eqRaisesL xs ys
+    | _ => some false
+  | .tuple xs => match b with
+    | .tuple ys => eqRaisesL xs ys   -- tuples have no length shortcut: the common prefix is compared first
+    -- XmlDate / XmlTime / XmlDateTime are NamedTuples: `tuple == XmlDate(…)` falls back to an
+    -- element-wise tuple comparison over fields the model does not know
+    | .opaque _ _ _ Option.none => if hasSNaNL xs then Option.none else some false
+    | _ => some false
+  | .dict kvs => match b with
+    | .dict kvs' => if hasSNaNKV kvs || hasSNaNKV kvs' then Option.none else some false
+    | _ => some false
+  | .set _ xs => match b with
+    | .set _ ys => if hasSNaNL xs || hasSNaNL ys then Option.none else some false
+    | _ => some false
+  | .model c xs => match b with
+    -- dataclass `__eq__`: same class, then the tuples of field values
+    | .model c' ys => if c != c' || xs.length != ys.length then some false else eqRaisesL xs ys
+    | _ => some false
+  | .opaque c cal ar Option.none => match b with
+    | .tuple ys => if hasSNaNL ys then Option.none else some false
+    | _ => some (leafRaises (.opaque c cal ar Option.none) b)
+  | a' => some (leafRaises a' b)
+def eqRaisesL (xs ys : List Val) : Option Bool :=
+  match xs with
+  | [] => some false
+  | x :: xs' => match ys with
+    | [] => some false
+    | y :: ys' =>
+      match eqRaises x y with
+      | Option.none => Option.none
+      | some true => some true
+      | some false => if pyEq x y then eqRaisesL xs' ys' else some false
+end
+
+def defaultRaises : Default → Val → Option Bool
+  | .missing, _ => some false
+  | .value d, v => eqRaises d v
+  | .factory d, v => eqRaises d v
+
+/-- the loop of `repr_model`: `sub` are the results for the attribute values
+themselves (they are only visited when the field is rendered) -/
+def fieldsRaise : List FieldSpec → List Val → List (Option Bool) → Option Bool
+  | f :: fs, v :: vs, r :: rs =>
+    if !f.init then fieldsRaise fs vs rs
+    else match defaultRaises f.dflt v with
+      | Option.none => Option.none
+      | some true => some true
+      | some false =>
+        if elide f.dflt v then fieldsRaise fs vs rs
+        else match r with
+          | Option.none => Option.none
+          | some true => some true
+          | some false => fieldsRaise fs vs rs
+  | _, _, _ => some false
+
+def orRaise (a b : Option Bool) : Option Bool :=
+  match a with
+  | some true => some true
+  | Option.none => Option.none
+  | some false => b
+
+mutual
+/-- does `render` raise `InvalidOperation` while walking the value?
+(`some true` yes, `some false` no, `none` not modelled) -/
+def cmpRaises (W : World) : Val → Option Bool
+  | .list xs => cmpRaisesL W xs
+  | .tuple xs => cmpRaisesL W xs
+  | .set _ xs => cmpRaisesL W xs
+  | .dict kvs => cmpRaisesKV W kvs
+  | .model c attrs => fieldsRaise (W.fieldsOf c) attrs (cmpRaisesEach W attrs)
+  | _ => some false
+def cmpRaisesL (W : World) : List Val → Option Bool
+  | [] => some false
+  | x :: xs => orRaise (cmpRaises W x) (cmpRaisesL W xs)
+def cmpRaisesKV (W : World) : List (Val × Val) → Option Bool
+  | [] => some false
+  | (k, v) :: r => orRaise (cmpRaises W k) (orRaise (cmpRaises W v) (cmpRaisesKV W r))
+def cmpRaisesEach (W : World) : List Val → List (Option Bool)
+  | [] => []
+  | x :: xs => cmpRaises W x :: cmpRaisesEach W xs
+end
+
+/-- no `default == value` test met while rendering raises -/
+def comparesQuietly (W : World) (v : Val) : Bool := cmpRaises W v == some false
+
+/-- does `render(obj)` get past the name-clash test of `build_imports`
+(rather than raise `SerializerError`)? -/
 def renders (W : World) (v : Val) : Bool := clashFree (render W v).types
 
 /-- the text `render` returns when it returns -/
@@ -965,7 +1217,10 @@ def source (W : World) (v : Val) (var : Str) : Str :=
 
 /-- `PycodeSerializer.render(obj, var)` -/
 def sourceE (W : World) (v : Val) (var : Str) : Except Err Str :=
-  if renders W v then .ok (source W v var) else .error .serializerError
+  match cmpRaises W v with
+  | some true => .error .invalidOperation      -- raised while walking the object, before the imports are built
+  | Option.none => .error .unmodelled
+  | some false => if renders W v then .ok (source W v var) else .error .serializerError
 
 /-- the namespace the expression is evaluated in -/
 def importsEnv (W : World) (v : Val) : Env := imports (render W v).types
@@ -978,10 +1233,21 @@ def run (W : World) (v : Val) : Except Err Val :=
   if nestingOK W v then eval W (importsEnv W v) (render W v) else .error .syntaxError
 
 def outcome (W : World) (v : Val) : Str :=
+  match cmpRaises W v with
+  | Option.none => cs!"unmodelled"
+  | some true => cs!"refused:InvalidOperation"
+  | some false =>
   if !renders W v then cs!"refused:SerializerError" else
   if (render W v).syntaxRisk then cs!"unmodelled" else
   match run W v with
-  | .ok v' => if pyEq v' v then cs!"equal" else cs!"unequal"
+  | .ok v' =>
+    if pyEq v' v then cs!"equal"
+    else
+      -- the final `restored == original` may itself meet a signaling NaN
+      match eqRaises v' v with
+      | Option.none => cs!"unmodelled"
+      | some true => cs!"eqexc:InvalidOperation"
+      | some false => cs!"unequal"
   | .error .unmodelled => cs!"unmodelled"
   | .error e => cs!"exc:" ++ e.name
 
